@@ -55,13 +55,13 @@ CHECKS = {
         'title': 'search API has no hidden state',
         'batches': [
             {'machine': 'mm', 'profile': 'faultfree',
-             'runs': {'quick': 448, 'thorough': 14000},
+             'runs': {'quick': 480, 'thorough': 14000},
              'block': {'quick': 4, 'thorough': 20},
-             'wall': {'quick': 85, 'thorough': 1700}},
+             'wall': {'quick': 95, 'thorough': 1700}},
             {'machine': 'mm', 'profile': 'faults',
-             'runs': {'quick': 384, 'thorough': 12000},
+             'runs': {'quick': 544, 'thorough': 14000},
              'block': {'quick': 4, 'thorough': 20},
-             'wall': {'quick': 85, 'thorough': 1700}},
+             'wall': {'quick': 95, 'thorough': 1700}},
         ]},
 }
 DETERMINISM_SAMPLE = {'heap': 64, 'diag': 24, 'mm': 4}
@@ -197,7 +197,7 @@ def shrink_and_confirm(prop, viol_rec, hashseed, tier, seed, log):
                        cwd=core.VERIF_DIR, env=worker_env(hashseed),
                        capture_output=True,
                        timeout=int(os.environ.get('VERIF_SHRINK_TIMEOUT',
-                                                  '600')))
+                                                  '300')))
     shrunk = p.returncode == 0 and os.path.exists(final)
     if not shrunk:
       log('shrink failed: ' + p.stderr.decode(errors='replace')[-600:])
@@ -337,7 +337,14 @@ def run_check(prop, tier, seed):
     by_cls.setdefault(v['violation']['cls'], []).append(v)
   reported = []
   known_lines = []
+  shrink_t0 = time.time()
   for cls, vs in sorted(by_cls.items())[:6]:
+    if reported and time.time() - shrink_t0 > (150 if tier == 'quick'
+                                               else 900):
+      # enough wall time spent minimising: one confirmed report suffices
+      log('violation class %s in %d run(s): not minimised (time)' % (
+          cls, len(vs)))
+      continue
     v = min(vs, key=lambda v: len(v['desc'].get('ops', [])))
     path, rep, confirmed, text = shrink_and_confirm(
         prop, v, v['hashseed'], tier, seed, log)
